@@ -239,6 +239,11 @@ func (g *Gen) assumeWF(st *State, v Val) {
 				tCmp("<=", ln, cp),
 				tCmp("<=", tAdd(ptr, tMul(cp, intLit(sz))), st.W),
 				tImp(tEq(ptr, intLit(0)), tEq(cp, intLit(0)))))
+		case KOpaque:
+			// a map value is nil or a map made earlier (map ids are allocated like addresses)
+			if _, isMap := c.Typ.(*types.Map); isMap {
+				g.assume(st.cond, tAnd(tCmp(">=", v.Comps[i], intLit(0)), tCmp("<", v.Comps[i], st.W)))
+			}
 		case KIfaceTag:
 			g.assume(st.cond, tImp(tEq(v.Comps[i], intLit(0)), tEq(v.Comps[i+1], intLit(0))))
 			// a pointer held in an interface refers to allocated memory
